@@ -171,7 +171,16 @@ pub fn replay(cases_path: &str, out: &str) {
             let drift = Rc::new(Cell::new(0u64));
             let reads = Rc::new(Cell::new(0u64));
             let src = Scripted::new(inp.clone(), sched.clone(), drift.clone(), reads.clone());
-            let mut rd = Reader::new(Box::new(src));
+            // (the constructor may already talk to the source)
+            let mut rd = match catch(|| Reader::new(Box::new(src))) {
+                Ok(rd) => rd,
+                Err(msg) => {
+                    v.checks += 1;
+                    let tag = if has_eintr { " [source raised Interrupted]" } else { "" };
+                    v.mismatch(&format!("reader.new: panic{}", tag), json!({"case": case, "width": format!("{:?}", w), "buf_size": bufsize, "panic": msg}));
+                    continue;
+                }
+            };
             for (i, c) in calls.iter().enumerate() {
                 let k = gets(c, "k");
                 let want = &c["want"];
@@ -550,7 +559,15 @@ pub fn record(seed: u64, tier: &str, out: &str) {
         t.ev(json!({"ev": "reset", "inp": text, "mode": run % 7, "eintr": eintr}));
         let drift = Rc::new(Cell::new(0u64));
         let reads = Rc::new(Cell::new(0u64));
-        let mut rd = Reader::new(Box::new(Scripted::new(text.clone(), sched, drift.clone(), reads.clone())));
+        let src = Scripted::new(text.clone(), sched, drift.clone(), reads.clone());
+        let mut rd = match catch(|| Reader::new(Box::new(src))) {
+            Ok(rd) => rd,
+            Err(msg) => {
+                // judged like a panicking first call
+                t.ev(json!({"ev": "eof", "panic": msg, "op": "Reader::new"}));
+                continue;
+            }
+        };
         for op in &ops {
             let res = catch(|| match op {
                 Op::Tok(ty) => read_ty(&mut rd, ty),
